@@ -1,7 +1,7 @@
 """C08 helper: the three seams (direct extractor, read_file, cli.main) and the two child-process roles.
 
     run_seam(seam, ext, data) -> observation dict (plain JSON)
-    python -m verif.props.c08_sub gen      stdin {"plain": b64, "alg", "user", "owner"} -> {"enc": b64, "clone": b64, "kat": n}
+    python -m verif.props.c08_sub gen      stdin {"plain": b64, "alg", "user", "owner", ["perm": /P value]} -> {"enc": b64, "clone": b64, "kat": n}
         writes an AES-encrypted copy of a PDF with pypdf's PdfWriter after sharepoint2text's patch_pypdf_fallback_aes()
         (pypdf has no AES of its own here).  Runs in its OWN process so that the process which later extracts the file
         starts with an unpatched pypdf: the extractor's own fallback path is what decrypts.  secrets.token_bytes is
@@ -183,10 +183,15 @@ def _gen(job):
     b0 = io.BytesIO()
     w.write(b0)
     w = PdfWriter(clone_from=PdfReader(io.BytesIO(plain)))
-    w.encrypt(job["user"], job["owner"] or None, algorithm=job["alg"])
+    if job.get("perm") is None:
+        w.encrypt(job["user"], job["owner"] or None, algorithm=job["alg"])
+    else:
+        from pypdf.constants import UserAccessPermissions
+        w.encrypt(job["user"], job["owner"] or None, permissions_flag=UserAccessPermissions(job["perm"] & 0xFFFFFFFF), algorithm=job["alg"])
     b1 = io.BytesIO()
     w.write(b1)
-    return {"enc": base64.b64encode(b1.getvalue()).decode(), "clone": base64.b64encode(b0.getvalue()).decode(), "kat": kat}
+    p_written = int(PdfReader(io.BytesIO(b1.getvalue())).trailer["/Encrypt"]["/P"])
+    return {"enc": base64.b64encode(b1.getvalue()).decode(), "clone": base64.b64encode(b0.getvalue()).decode(), "kat": kat, "P": p_written}
 
 
 def _extract(job):
